@@ -411,7 +411,7 @@ pub fn run() -> Report {
     for cb in CBS {
         for h in 0..6u64 {
             let flen = small.files[&h].len;
-            for f in ["removed", "emptied", "offset-past-eof", "offset-in-last-3-bytes", "offset-plus-2^32", "offset-plus-2^33", "offset-with-bit-63", "offset-plus-2^16-past-eof", "pruned"] {
+            for f in ["removed", "emptied", "offset-past-eof", "offset-in-last-3-bytes", "offset-plus-2^32", "offset-plus-2^33", "offset-with-bit-63", "offset-plus-2^16-past-eof", "pruned", "record-names-missing-file-plus-2^32", "record-names-missing-file-plus-2^16", "record-names-missing-file-plus-2^8", "record-names-missing-file-plus-2^63"] {
                 cases.push(Case::Input { cb, height: h, fault: f.into(), range: (None, None) });
                 // the same fault with the block being the first / an inner / the last block of a requested range
                 for (rs, re) in [(Some(2u64), None), (None, Some(3u64)), (Some(1), Some(4))] {
@@ -542,6 +542,18 @@ pub fn run() -> Report {
                         "offset-in-last-3-bytes" => {
                             let mut r = recs[*height as usize].clone();
                             r.data_pos = flen + 1;
+                            world.put_rec(&r);
+                        }
+                        // the record names a blk file that does not exist - one whose number equals that of the file the block
+                        // really sits in modulo a power of two (that file is present, with the block at the very offset)
+                        "record-names-missing-file-plus-2^32" | "record-names-missing-file-plus-2^16" | "record-names-missing-file-plus-2^8" | "record-names-missing-file-plus-2^63" => {
+                            let mut r = recs[*height as usize].clone();
+                            r.file += match fault.as_str() {
+                                "record-names-missing-file-plus-2^32" => 1u64 << 32,
+                                "record-names-missing-file-plus-2^16" => 1u64 << 16,
+                                "record-names-missing-file-plus-2^8" => 1u64 << 8,
+                                _ => 1u64 << 63,
+                            };
                             world.put_rec(&r);
                         }
                         // far beyond the end of the file, but equal to the true offset modulo a power of two
